@@ -56,6 +56,26 @@ MBLOB = z3.Function("zip_member_bytes", ZipFile, S, Blob)
 TEXT = z3.Function("utf8_text_of", Blob, S)                   # decoded text of a member (UTF-8 assumed)
 HAS_ENC_ELEM = z3.Function("xml_has_encryption_data_element", S, B)   # the manifest *tree* has an encryption-data element
 
+NZ = z3.Function("zip_n", ZipFile, I)                         # infolist(): finite entry sequence
+INFO = z3.Function("zip_info", ZipFile, I, ZipInfo)
+ISDIR = z3.Function("is_dir", ZipInfo, B)
+FLAG = z3.Function("zip_flag_bits", ZipInfo, z3.BitVecSort(16))   # general purpose bit flag of the entry
+FNAME = z3.Function("zip_filename", ZipInfo, S)
+SevenZ = ext_sort("SevenZipFile")
+Folder = ext_sort("Folder")
+CoderId = ext_sort("CoderId")
+RView = ext_sort("SevenZipReaderView")
+SZ_OF = z3.Function("sevenzip_of", BytesIO, SevenZ)
+HDRAES = z3.Function("sevenzip_encoded_header_has_aes_coder", BytesIO, B)   # header itself is AES-encoded (7z -mhe)
+RV_OF = z3.Function("sevenzip_reader_view", SevenZ, RView)
+NFOLD = z3.Function("sevenzip_num_folders", RView, I)
+FOLDER = z3.Function("sevenzip_folder", RView, I, Folder)
+NCOD = z3.Function("folder_num_coders", Folder, I)
+CID = z3.Function("folder_coder_id", Folder, I, CoderId)
+BSTR = z3.Function("bytes_as_latin1", CoderId, S)             # the id bytes, rendered one char per byte
+BSIZE = z3.Function("bytesio_size", BytesIO, I)
+AES_PREFIX = "\x06\xf1\x07"                                   # 7z method id 06 F1 07 xx = AES-256 + SHA-256
+
 MANIFEST = "META-INF/manifest.xml"
 OLE_ENC_STREAMS = ("EncryptionInfo", "EncryptedPackage", "DataSpaces")      # property statement (quantifier text)
 PPT_ENC_STREAMS = ("EncryptedSummary", "EncryptedSummaryInformation")       # [MS-PPT] encrypted document streams
@@ -100,6 +120,21 @@ def workbook_stream(ole):
 def spec_xls(f):
     ole = OLE_OF(f)
     return z3.And(ISOLE(f), z3.Or(EX(ole, sv("Workbook")), EX(ole, sv("Book"))), FP(ole, workbook_stream(ole), z3.IntVal(0)))
+
+
+def spec_zip_enc(zf):
+    """Some non-directory member has general-purpose flag bit 0 (encrypted) set."""
+    j = z3.Int("j!zenc")
+    return z3.Exists([j], z3.And(j >= 0, j < NZ(zf), z3.Not(ISDIR(INFO(zf, j))), z3.Extract(0, 0, FLAG(INFO(zf, j))) == 1))
+
+
+def is_aes(cid):
+    return z3.PrefixOf(sv(AES_PREFIX), BSTR(cid))
+
+
+def spec_7z_folders_enc(rv):
+    i, j = z3.Int("i!7z"), z3.Int("j!7z")
+    return z3.Exists([i, j], z3.And(i >= 0, i < NFOLD(rv), j >= 0, j < NCOD(FOLDER(rv, i)), is_aes(CID(FOLDER(rv, i), j))))
 
 
 def manifest_text(f):
@@ -176,6 +211,9 @@ def m_is_zipfile(ex, st, args, kwargs, node):
 
 def m_zip_read(ex, st, obj, args, kwargs, node):
     """ZipFile.read(name): ASSUMED -- KeyError iff there is no such member; may raise anything else; else the bytes."""
+    h = getattr(ex.contract, "on_zip_read", None)
+    if h is not None:
+        h(ex, st, obj, node)
     st.ghost["zip_reads"] = st.ghost.get("zip_reads", 0) + 1
     t, cnd = ex.uni.any_exception()
     bad = st.fork().assume(z3.And(cnd, z3.Not(ex.uni.subclass_term(t, "KeyError"))))
@@ -247,6 +285,15 @@ INLINE_METHODS = {"_get_stream"}
 
 
 # ----------------------------------------------------------------- executor --
+class VGen(VUnk):
+    """Lazy generator expression over symbolic sequences (consumed by any()/all())."""
+    __slots__ = ("vars", "cond", "elt")
+
+    def __init__(self, vars_, cond, elt):
+        super().__init__("generator")
+        self.vars, self.cond, self.elt = vars_, cond, elt
+
+
 def raises_encrypted(stmt):
     """`if <cond>: raise ExtractionFileEncryptedError(...)` (the rejection site)."""
     return isinstance(stmt, ast.If) and any(isinstance(n, ast.Raise) and n.exc is not None and ENCERR in ast.unparse(n.exc)
@@ -301,6 +348,92 @@ class C08Executor(Executor):
         if not self.inline_calls and name not in INLINE_METHODS and self.reg.get(f"{self.module.rel}::{st.obj(obj.ref).cls}.{name}") is None:
             return self.havoc_call(st, f"method:{name}", [obj] + list(args), node)
         return super().obj_method(st, obj, name, args, kwargs, node)
+
+    def havoc_loop_state(self, st, body, spec, extra_names=()):
+        # lists the body grows/shrinks (append/extend/insert/pop/remove/clear) do not keep their length
+        for n in body:
+            for sub in ast.walk(n):
+                if isinstance(sub, ast.Call) and isinstance(sub.func, ast.Attribute) and isinstance(sub.func.value, ast.Name) \
+                        and sub.func.attr in ("append", "extend", "insert", "pop", "remove", "clear"):
+                    v = st.lookup(sub.func.value.id)
+                    if hasattr(v, "ref"):
+                        st.ghost[("growing", v.ref)] = True
+        return super().havoc_loop_state(st, body, spec, extra_names)
+
+    _LIST_GROW = ("append", "extend", "insert")
+
+    def _grown_list(self, st, v):
+        return hasattr(v, "ref") and st.obj(v.ref).kind == "unk" and st.ghost.get(("growing", v.ref))
+
+    def get_attr(self, st, base, attr, node):
+        if attr in self._LIST_GROW and self._grown_list(st, base):
+            return [(st, VFunc("bound", base, attr))]        # a list of unknown content: append & co. are total
+        return super().get_attr(st, base, attr, node)
+
+    def call_method(self, st, obj, name, args, kwargs, node):
+        if name in self._LIST_GROW and self._grown_list(st, obj):
+            return [(st, NONE)]
+        return super().call_method(st, obj, name, args, kwargs, node)
+
+    def compare(self, st, op, a, b, node):
+        if op in ("Eq", "NotEq"):
+            for x, y in ((a, b), (b, a)):
+                if isinstance(x, VExt) and x.sort == "CoderId" and isinstance(y, VBytes):
+                    cb = self.py_const(y)
+                    if isinstance(cb, bytes):
+                        t = BSTR(x.t) == sv(cb.decode("latin-1"))
+                        return [(st, VBool(t if op == "Eq" else z3.Not(t)))]
+        return super().compare(st, op, a, b, node)
+
+    def e_GeneratorExp(self, n, st):
+        from pyvc.ops import Unsupported
+        try:
+            return super().e_GeneratorExp(n, st)
+        except Unsupported:
+            return self.lazy_generator(n, st)
+
+    def lazy_generator(self, n, st):
+        """Generator expression over symbolic sequences -> (bound variables, range condition, element) for any()/all().
+        Requires the element and the conditions to be pure, non-forking and non-raising."""
+        from pyvc.ops import Unsupported
+        s = st.fork()
+        vars_, conds = [], []
+        mark = len(self.sinks[-1])
+        for g in n.generators:
+            r = self.ev(g.iter, s)
+            if len(r) != 1 or not isinstance(r[0][1], VSeq):
+                raise Unsupported(f"{self.loc(n)} generator over non-sequence")
+            s, it = r[0]
+            k = z3.Int(fresh_name("k"))
+            vars_.append(k)
+            conds.append(z3.And(k >= 0, k < it.length))
+            ss = self.assign(g.target, it.elem(k), s)
+            if len(ss) != 1:
+                raise Unsupported(f"{self.loc(n)} forking target in generator")
+            s = ss[0]
+            for cnd in g.ifs:
+                r = self.ev(cnd, s)
+                if len(r) != 1:
+                    raise Unsupported(f"{self.loc(n)} forking condition in generator")
+                s = r[0][0]
+                conds.append(self.truth(s, r[0][1]).t)
+        r = self.ev(n.elt, s)
+        if len(r) != 1 or len(self.sinks[-1]) != mark:
+            del self.sinks[-1][mark:]
+            raise Unsupported(f"{self.loc(n)} forking / raising element in generator")
+        return [(st, VGen(vars_, z3.And(conds), self.truth(r[0][0], r[0][1]).t))]
+
+    def b_any(self, st, args, kwargs, node):
+        if args and isinstance(args[0], VGen):
+            g = args[0]
+            return [(st, VBool(z3.Exists(g.vars, z3.And(g.cond, g.elt))))]
+        return super().b_any(st, args, kwargs, node)
+
+    def b_all(self, st, args, kwargs, node):
+        if args and isinstance(args[0], VGen):
+            g = args[0]
+            return [(st, VBool(z3.ForAll(g.vars, z3.Implies(g.cond, g.elt))))]
+        return super().b_all(st, args, kwargs, node)
 
     def on_yield(self, st, v, node):
         st.ghost["n_yields"] = st.ghost.get("n_yields", 0) + 1
@@ -425,11 +558,245 @@ def doc_contracts(reg):
         note="first parse of a fresh reader (_content is None, set by __init__); FIB word at 0x0A, bit 0x0100")]
 
 
+# ---- archives: ZIP flag bit 0, 7z AES coder ---------------------------------
+def new_zipfile(ex, st, args, kwargs, node):
+    """zipfile.ZipFile(f, 'r'): ASSUMED to raise anything or return the central-directory view of the same bytes."""
+    ex.exc_any(st.fork(), f"{ex.loc(node)} zipfile.ZipFile()")
+    f = _fl(args[0]) if args else None
+    zf = VExt("ZipFile", ZIP_OF(f.t)) if f is not None else VExt("ZipFile")
+    st.assume(NZ(zf.t) >= 0)
+    return [(st, zf)]
+
+
+def m_infolist(ex, st, obj, args, kwargs, node):
+    ex.exc_any(st.fork(), f"{ex.loc(node)} ZipFile.infolist")
+    zf = obj.t
+    st.ghost["infolist_ok"] = True
+    return [(st, VSeq(NZ(zf), lambda i: VExt("ZipInfo", INFO(zf, i)), "ZipInfo"))]
+
+
+def m_seek2(ex, st, obj, args, kwargs, node):
+    if len(args) == 2:
+        st.assume(BSIZE(obj.t) >= 0)
+        st.ghost[common.pos_key(obj)] = BSIZE(obj.t)
+        return [(st, VInt(BSIZE(obj.t)))]
+    return common.m_seek(ex, st, obj, args, kwargs, node)
+
+
+def new_7z(ex, st, args, kwargs, node):
+    """SevenZipFile(f, 'r'): stores its arguments (the archive is parsed by __enter__)."""
+    f = _fl(args[0]) if args else None
+    return [(st, VExt("SevenZipFile", SZ_OF(f.t)) if f is not None else VExt("SevenZipFile"))]
+
+
+def with_7z(ex, st, cm, phase):
+    """SevenZipFile.__enter__ builds SevenZipReader(file): ASSUMED to raise anything; when the *encoded header* is AES-coded
+    it cannot succeed -- it raises what _apply_decoder raises for an AES coder (Bad7zFile; chain _parse_end_header ->
+    _parse_encoded_header -> _decompress_folder -> _apply_decoder, see the policy obligation)."""
+    if phase != "enter":
+        return None
+    st.ghost["szf_enter_attempted"] = True
+    f = st.ghost.get("the_7z_bytes")
+    bad = st.fork()
+    if f is not None:
+        b2 = st.fork().assume(HDRAES(f))
+        ex.raise_in(b2, VExc(z3.IntVal(ex.uni.index["Bad7zFile"]), {"site": "SevenZipFile.__enter__ (AES-coded header)"}))
+        st.assume(z3.Not(HDRAES(f)))
+    ex.exc_any(bad, "SevenZipFile.__enter__")
+    st.ghost["szf_entered"] = True
+    return [(st, cm)]
+
+
+def m_7z_needs_password(ex, st, obj, args, kwargs, node):
+    """SevenZipFile.needs_password(): by its verified contract, the folder-coder predicate of the opened reader."""
+    st.ghost["needs_password_called"] = True
+    return [(st, VBool(spec_7z_folders_enc(RV_OF(obj.t))))]
+
+
+def m_7z_extractall(ex, st, obj, args, kwargs, node):
+    h = getattr(ex.contract, "on_extractall", None)
+    if h is not None:
+        h(ex, st, obj, node)
+    st.ghost["extractall_calls"] = st.ghost.get("extractall_calls", 0) + 1
+    ex.exc_any(st.fork(), f"{ex.loc(node)} SevenZipFile.extractall")
+    return [(st, NONE)]
+
+
+def install_archive_models(reg):
+    reg.ext_models[("new", "zipfile.ZipFile")] = new_zipfile
+    reg.method_models[("ZipFile", "infolist")] = m_infolist
+    reg.method_models[("ZipInfo", "is_dir")] = lambda ex, st, o, a, k, n: [(st, VBool(ISDIR(o.t)))]
+    reg.attr_models[("ZipInfo", "flag_bits")] = lambda ex, st, o: VInt(FLAG(o.t))
+    reg.attr_models[("ZipInfo", "filename")] = lambda ex, st, o: VStr(FNAME(o.t))
+    reg.attr_models[("ZipInfo", "file_size")] = lambda ex, st, o: VInt(z3.Int(fresh_name("file_size")))
+    reg.method_models[("BytesIO", "seek")] = m_seek2
+    reg.ext_models[("const", "os.SEEK_END")] = VInt(2)
+    reg.ext_models[("new", "SevenZipFile")] = new_7z
+    reg.ext_models[("with", "SevenZipFile")] = with_7z
+    reg.method_models[("SevenZipFile", "needs_password")] = m_7z_needs_password
+    reg.method_models[("SevenZipFile", "extractall")] = m_7z_extractall
+    reg.method_models[("SevenZipFile", "list")] = lambda ex, st, o, a, k, n: (ex.exc_any(st.fork(), "SevenZipFile.list"), [(st, VUnk("file_list"))])[1]
+    reg.attr_models[("Folder", "coders")] = lambda ex, st, o: VSeq(NCOD(o.t), lambda j: VTuple([VExt("CoderId", CID(o.t, j)), VUnk("props")]), "tuple")
+    reg.method_models[("CoderId", "startswith")] = m_cid_startswith
+    # os.path.basename on a str: ASSUMED total and pure
+    reg.ext_models["os.path.basename"] = lambda ex, st, args, kwargs, node: [(st, VStr(z3.String(fresh_name("basename"))))]
+
+
+def m_cid_startswith(ex, st, obj, args, kwargs, node):
+    cb = ex.py_const(args[0]) if args and isinstance(args[0], VBytes) else None
+    if not isinstance(cb, bytes):
+        return [(st, VBool(z3.Bool(fresh_name("startswith"))))]
+    return [(st, VBool(z3.PrefixOf(sv(cb.decode("latin-1")), BSTR(obj.t))))]
+
+
+def n_yields(c):
+    return c.st.ghost.get("n_yields", 0) + (1 if c.st.ghost.get("yield_count_unknown") else 0)
+
+
+def archive_contracts(reg):
+    out = []
+    AP = [("file_like", p_ext("BytesIO")), ("archive_path", p_opt(p_str()))]
+
+    out.append(FnContract(
+        target=f"{ARCH}::_should_skip_file", assumed=True, params=[("filename", p_unk()), ("basename", p_unk())],
+        result_maker=lambda ex, st, ctx: VBool(z3.Bool(fresh_name("skip"))), raises=[],
+        note="verified by the C09 pack (functional contract, raises nothing); here only: total, returns a bool"))
+    # ---------------- ZIP
+    def zf_of(c):
+        return ZIP_OF(c.args["file_like"].t)
+
+    def zip_inv(lc):
+        zf = ZIP_OF(lc.entry.lookup("file_like").t)
+        j = z3.Int("j!zinv")
+        g = lc.st.ghost
+        return z3.And(z3.ForAll([j], z3.Implies(z3.And(j >= 0, j < lc.i), z3.Or(ISDIR(INFO(zf, j)), z3.Extract(0, 0, FLAG(INFO(zf, j))) == 0)),
+                                patterns=[INFO(zf, j)]),
+                      z3.BoolVal(g.get("zip_reads", 0) == 0 and g.get("n_yields", 0) == 0 and not g.get("yield_count_unknown")))
+
+    def zip_only_if(c):
+        c.note = "the file-encrypted error is raised although no member has flag bit 0 (read-time RuntimeError mapping)" if own(c) else ""
+        return z3.Implies(z3.And(z3.BoolVal(own(c)), is_enc_err(c)), spec_zip_enc(zf_of(c)))
+
+    def zip_if(c):
+        g = c.st.ghost
+        return z3.Implies(z3.And(z3.BoolVal(bool(g.get("infolist_ok"))), spec_zip_enc(zf_of(c))),
+                          z3.And(z3.BoolVal(own(c)), is_enc_err(c), z3.BoolVal(g.get("zip_reads", 0) == 0 and n_yields(c) == 0)))
+
+    t = f"{ARCH}::_extract_from_zip_optimized"
+    cz = FnContract(
+        target=t, params=AP, generator=True, modifies=("file_like",),
+        ensures=[("completes-only-if-no-member-is-flagged", lambda c: z3.Not(spec_zip_enc(zf_of(c))))],
+        raises=[Raises("Exception", sub=True)],
+        exc_ensures=[("flagged-member-implies-encrypted-error-before-any-read-or-result", zip_if),
+                     ("encrypted-error-only-if-some-member-has-flag-bit-0", zip_only_if)],
+        loops={0: LoopSpec(inv=zip_inv, label="flag-scan")},
+        note="ZIP: a non-directory member with general-purpose flag bit 0 <=> file-encrypted error, before any zf.read / yield")
+
+    def zip_on_read(ex, st, obj, node):
+        ex.add_vc("typestate", "no-member-read-before-every-flag-was-checked", st.pc, z3.Not(spec_zip_enc(obj.t)), loc=ex.loc(node),
+                  note=f"{ex.loc(node)} zf.read reachable while a flagged member may exist")
+
+    def zip_on_yield(ex, st, v, node):
+        zf = ZIP_OF(st.frames[0].env["file_like"].t) if isinstance(st.frames[0].env.get("file_like"), VExt) else None
+        ex.add_vc("typestate", "no-result-before-every-flag-was-checked", st.pc,
+                  z3.Not(spec_zip_enc(zf)) if zf is not None else z3.BoolVal(False), loc=ex.loc(node))
+    cz.on_zip_read, cz.on_yield = zip_on_read, zip_on_yield
+    EXECUTOR_KW[t] = {"abstract": True, "inline_calls": False}
+    out.append(cz)
+
+    # ---------------- 7z extractor
+    def f_of(c):
+        return c.args["file_like"].t
+
+    def rv_of(c):
+        return RV_OF(SZ_OF(f_of(c)))
+
+    def z7_req(c):
+        c.st.ghost["the_7z_bytes"] = f_of(c)
+        return z3.BoolVal(True)
+
+    def z7_only_if(c):
+        return z3.Implies(z3.And(z3.BoolVal(own(c)), is_enc_err(c)), z3.Or(spec_7z_folders_enc(rv_of(c)), HDRAES(f_of(c))))
+
+    def z7_if_folders(c):
+        g = c.st.ghost
+        return z3.Implies(z3.And(z3.BoolVal(bool(g.get("szf_entered"))), spec_7z_folders_enc(rv_of(c))),
+                          z3.And(z3.BoolVal(own(c)), is_enc_err(c), z3.BoolVal(g.get("extractall_calls", 0) == 0 and n_yields(c) == 0)))
+
+    def z7_if_header(c):
+        g = c.st.ghost
+        c.note = "AES-coded (encrypted) header: the reader's Bad7zFile is reported as ExtractionFailedError, not as the file-encrypted error"
+        return z3.Implies(z3.And(z3.BoolVal(bool(g.get("szf_enter_attempted"))), HDRAES(f_of(c))), z3.And(z3.BoolVal(own(c)), is_enc_err(c)))
+
+    t = f"{ARCH}::_extract_from_7z_optimized"
+    c7 = FnContract(
+        target=t, params=AP, generator=True, modifies=("file_like",), requires=z7_req,
+        ensures=[("completes-only-if-no-aes-coder", lambda c: z3.Not(z3.Or(spec_7z_folders_enc(rv_of(c)), HDRAES(f_of(c)))))],
+        raises=[Raises("Exception", sub=True)],
+        exc_ensures=[("aes-folder-coder-implies-encrypted-error-before-extractall-or-result", z7_if_folders),
+                     ("aes-coded-header-implies-encrypted-error", z7_if_header),
+                     ("encrypted-error-only-if-an-aes-coder-exists", z7_only_if)],
+        note="7z: some coder id with prefix 06 F1 07 <=> file-encrypted error; needs_password() checked before extractall()")
+
+    def z7_on_extractall(ex, st, obj, node):
+        ex.add_vc("typestate", "extractall-only-after-needs_password-returned-false", st.pc,
+                  z3.And(z3.BoolVal(bool(st.ghost.get("needs_password_called"))), z3.Not(spec_7z_folders_enc(RV_OF(obj.t)))), loc=ex.loc(node))
+
+    def z7_on_yield(ex, st, v, node):
+        f = st.ghost.get("the_7z_bytes")
+        ex.add_vc("typestate", "no-result-before-needs_password-returned-false", st.pc,
+                  z3.And(z3.BoolVal(bool(st.ghost.get("needs_password_called"))), z3.Not(spec_7z_folders_enc(RV_OF(SZ_OF(f))))), loc=ex.loc(node))
+    c7.on_extractall, c7.on_yield = z7_on_extractall, z7_on_yield
+    EXECUTOR_KW[t] = {"abstract": True, "inline_calls": False}
+    out.append(c7)
+
+    # ---------------- sevenzip.py: needs_password / _apply_decoder
+    def folders_maker():
+        def mk(ex, st, name):
+            rv = z3.Const(name.replace(".", "_") + "_view", RView)
+            return [(NFOLD(rv) >= 0, VSeq(NFOLD(rv), lambda i: VExt("Folder", FOLDER(rv, i)), "Folder", tag=rv))]
+        return Maker(mk, desc="list[Folder] of symbolic length, each with a coder list of symbolic length")
+
+    READER = p_obj("SevenZipReader", {"_folders": folders_maker()})
+
+    def view(c, name="self"):
+        return c.entry.obj(c.args[name].ref).data["_folders"].tag
+
+    out.append(FnContract(
+        target=f"{SEVEN}::SevenZipReader.needs_password", params=[("self", READER)],
+        returns=lambda c: VBool(spec_7z_folders_enc(view(c))), raises=[],
+        note="needs_password <=> some folder has a coder whose id starts with 06 F1 07"))
+
+    def szf_reader(c):
+        r = c.entry.obj(c.args["self"].ref).data["_reader"]
+        return None if r is NONE else c.entry.obj(r.ref).data["_folders"].tag
+
+    out.append(FnContract(
+        target=f"{SEVEN}::SevenZipFile.needs_password",
+        params=[("self", p_obj("SevenZipFile", {"_file": p_unk(), "_password": p_unk(), "_reader": p_opt(READER)}))],
+        returns=lambda c: VBool(spec_7z_folders_enc(szf_reader(c))) if szf_reader(c) is not None else VBool(False),
+        raises=[Raises("Bad7zFile", when=lambda c: z3.BoolVal(szf_reader(c) is None), label="archive not opened")],
+        note="delegates to the reader opened by __enter__"))
+
+    out.append(FnContract(
+        target=f"{SEVEN}::SevenZipReader._apply_decoder",
+        params=[("self", p_unk()), ("coder_id", p_ext("CoderId")), ("properties", p_unk()), ("data", p_unk()), ("unpack_sizes", p_unk())],
+        ensures=[("data-returned-only-for-non-aes-coders", lambda c: z3.Not(is_aes(c.args["coder_id"].t)))],
+        raises=[Raises("Exception", sub=True)],
+        exc_ensures=[("aes-coder-raises-Bad7zFile-itself", lambda c: z3.Implies(is_aes(c.args["coder_id"].t), z3.And(
+            z3.BoolVal(own(c)), c.ex.uni.subclass_term(c.exc.tidx, "Bad7zFile"))))],
+        note="an AES coder is never decoded / passed through: Bad7zFile"))
+    EXECUTOR_KW[f"{SEVEN}::SevenZipReader._apply_decoder"] = {"abstract": True, "inline_calls": False}
+    return out
+
+
 def contracts(reg):
     install_container_models(reg)
+    install_archive_models(reg)
     out = []
     out += detector_contracts(reg)
     out += doc_contracts(reg)
+    out += archive_contracts(reg)
     return out
 
 
